@@ -7,6 +7,14 @@ import random
 from ..utils import assert_is_instance, assert_callable
 
 
+def _action_name(action):
+    # Actions may be functools.partial objects (or other callables)
+    # that do not have a __name__ of their own.
+    while hasattr(action, 'func') and not hasattr(action, '__name__'):
+        action = action.func
+    return getattr(action, '__name__', repr(action))
+
+
 @unique
 class EventType(IntEnum):
     '''Events in the order of lowest to highest priority.
@@ -202,7 +210,7 @@ class Environment:
             print('Failed event:')
             print(f'  time:     {next_event.time}')
             print(f'  asset_id: {next_event.asset_id}')
-            print(f'  action:   {next_event.action.__name__}')
+            print(f'  action:   {_action_name(next_event.action)}')
             print(f'  event_type: {next_event.event_type}')
             print(f'  message: {next_event.message}')
             print(f'  status: {next_event.status}')
@@ -249,7 +257,7 @@ class Environment:
     def _trace_event(self, event):
         self._event_trace[self._event_index] = {'time': self.now,
                                                 'asset_id': event.asset_id,
-                                                'action': event.action.__name__,
+                                                'action': _action_name(event.action),
                                                 'message': event.message,
                                                 'event_type': event.event_type,
                                                 'status': event.status}
